@@ -205,6 +205,30 @@ def corr(ctx):
                     ok = bool((out == torch.tensor(msgs, dtype=out.dtype)).all())
                     ops.append(Op("pkron 0", "1", nontrivial=False, info={"site": "fec.decoders:SuccessiveCancellationDecoder.clean", "config": {"N": N, "k": k, "frozen_zeros": False, "polar_i": inter, "regime": regime, "magnitude": a, "batch": 2}}, prop_ok=ok))
         ctx.count("deep_chain_clean")
+    # long codes, strong structured LLRs (period-4 patterns, magnitudes up to 100): partial sums of the bit nodes run into the thousands -
+    # nothing but the check node may clip
+    for N in (64, 128):
+        for k in (1, 2, 3):
+            for inter in (False, True):
+                enc = quiet(PolarCodeEncoder, k, N, frozen_zeros=True, polar_i=inter)
+                info = [bool(v) for v in enc.info_indices.tolist()]
+                m_ = N.bit_length() - 1
+                sc = SuccessiveCancellationDecoder(enc, regime="min_sum")
+                rows = []
+                for _ in range(6 if ctx.thorough else 3):
+                    base = [rng.choice([94.0, 80.5, 60.25]), -rng.choice([22.0, 30.5]), -rng.choice([37.5, 45.25, 12.5]), -rng.choice([22.0, 18.75])]
+                    rng.shuffle(base)
+                    rows.append([base[j % 4] * rng.choice([1.0, 1.0, 0.5]) for j in range(N)])
+                rows.append([94.0 if j % 4 == 0 else (-37.5 if j % 4 == 2 else -22.0) for j in range(N)])
+                Lr = torch.tensor(rows, dtype=torch.float32)
+                for row, o in zip(Lr.tolist(), sc(Lr).tolist()):
+                    MARGIN[0] = float("inf")
+                    textbook_sc(row, info, 0, inter, f_ms)
+                    if MARGIN[0] < 1e-9:
+                        continue
+                    ops.append(Op("psc %d %d 0 1000 %s %s" % (m_, inter, bstr(info), fr(row)), bstr(o), nontrivial=True,
+                                  info={"site": "fec.decoders:SuccessiveCancellationDecoder", "config": {"N": N, "k": k, "frozen_zeros": True, "polar_i": inter, "regime": "min_sum", "structured_strong_llrs": True}}))
+                ctx.count("sc_strong_structured_rows", len(rows))
     # user-supplied information masks are used verbatim
     for N, mask in ((8, [0, 1, 0, 1, 1, 0, 1, 1]), (8, [1, 1, 1, 1, 0, 0, 0, 0]), (16, [rng.getrandbits(1) for _ in range(16)])):
         k = sum(mask)
